@@ -24,7 +24,7 @@ from .. import core, sxvm
 LEVEL = "exploration"
 RULE = ("control points from patterns {unit vectors, alternating, ramps, seeded generic} with values in {-2,0,1,3}; T in {1/2,1,2,10,1/2000}; t/T in {0,1/3,1/2,1,-1/4,5/4}; "
         "boundary vectors from {0, e_i, generic} for both ends. non-trivial = control points not all equal; distinct by exact input tuple")
-ASSUMPTIONS = ["exact rational arithmetic on the real instruction lists (float VM conformance-gated bitwise against CasADi)", "degrees above 7 not covered"]
+ASSUMPTIONS = ["exact rational arithmetic on the real instruction lists (float VM conformance-gated bitwise against CasADi)", "degrees above 7: 8, 9, 12 exactly and 16, 24 (thorough 32, 40) in double against the exact value; other degrees not covered"]
 TS = [Fr(1, 2), Fr(1), Fr(2), Fr(10), Fr(1, 2000)]  # last: a segment shorter than a millisecond
 BETAS = [Fr(0), Fr(1, 3), Fr(1, 2), Fr(1), Fr(-1, 4), Fr(5, 4)]
 
@@ -267,6 +267,61 @@ def explore_multirotor(case):
     return res
 
 
+# ---------------- high degrees: exact identity and double-precision accuracy ----------------------------------------------------
+def explore_highdeg(case):
+    """degrees beyond the shipped cubic / septic: the Bernstein / derivative identities exactly (rational arithmetic on the real instruction list)
+    and the accuracy of the double evaluation inside [0, T] (an algebraically equivalent but unstable evaluation scheme loses digits with
+    the degree)"""
+    n, dim, seed = case["n"], case["dim"], case["seed"]
+    res = core.Result()
+    # generic control points of size ~1 with both signs, plus one pattern with a large offset
+    gens = [[Fr(((k * 37 + seed * 11 + d * 17 + 5) % 41) - 20, 13) for k in range(n + 1)] for d in range(dim)]
+    offs = [[Fr(1000) + Fr(((k * 29 + d * 7 + 3) % 17) - 8, 7) for k in range(n + 1)] for d in range(dim)]
+    for m in (0, 1, 2, n):
+        try:
+            f, prog = fn_eval(n, dim, m)
+        except Exception as ex:
+            res.count("evaluations")
+            res.fail(site="Bezier.deriv", clause="operation_raises", cls="n=%d,m=%d" % (n, m), detail=dict(error="%s: %s" % (type(ex).__name__, str(ex)[:200])), sub="highdeg", case=case)
+            continue
+        for tag, rows in (("generic", gens), ("offset", offs)):
+            Pflat = [rows[d][k] for k in range(n + 1) for d in range(dim)]
+            scale = max(abs(float(x)) for x in Pflat)
+            for T in (Fr(1), Fr(5, 2)):
+                for beta in (Fr(0), Fr(1, 7), Fr(1, 2), Fr(9, 10), Fr(999, 1000), Fr(1)):
+                    res.count("evaluations")
+                    res.nontrivial.add(hash((n, dim, m, tag, T, beta)))
+                    want = [ref_curve(rows[d], T, beta, m) for d in range(dim)]
+                    res.outcomes.add(hash(tuple(want)))
+                    info = dict(n=n, dim=dim, m=m, points=tag, T=str(T), t=str(beta * T))
+                    if n <= 12:
+                        outs, _ = sxvm.run(prog, [Pflat, [T], [beta * T]], sxvm.FRACTION)
+                        if _differs(outs[0], want, Fr(0)):
+                            res.fail(site="Bezier.eval" if m == 0 else "Bezier.deriv", clause="equals_bernstein_polynomial" if m == 0 else "equals_exact_time_derivative",
+                                     cls="n=%d,m=%d" % (n, m), detail=dict(info, got=[str(x) for x in outs[0]][:4], want=[str(x) for x in want][:4]), sub="highdeg", case=case)
+                            continue
+                    got = np.array(f.call([ca.DM(np.array([float(x) for x in Pflat]).reshape(dim, n + 1, order="F")), ca.DM(float(T)), ca.DM(float(beta * T))])[0], dtype=float).reshape(-1)
+                    # derivative of order m amplifies the control-point round-off by at most (2 n)^m / T^m
+                    tol = 1e-11 * scale * (2.0 * n / float(T)) ** m * (n + 1)
+                    err = max(abs(g - float(w)) for g, w in zip(got, want)) if got.shape == (dim,) else float("inf")
+                    if not err <= tol:
+                        res.fail(site="Bezier.eval" if m == 0 else "Bezier.deriv", clause="double_evaluation_accurate", cls="n=%d,m=%d" % (n, m),
+                                 detail=dict(info, err=err, tol=tol, got=got, want=[float(w) for w in want]), sub="highdeg", case=case)
+    res.samples.append(dict(high_degree=n, dim=dim))
+    return res
+
+
+class _Hd:
+    chunks = 1
+
+    def cases(self, tier, seed):
+        ns = (8, 9, 12, 16, 24) + ((32, 40) if tier == "thorough" else ())
+        return [dict(sub="highdeg", n=n, dim=d, seed=seed, tier=tier) for n in ns for d in (1, 2)]
+
+    def run(self, case):
+        return explore_highdeg(case)
+
+
 # ---------------- object history: a Bezier object follows its current control points and duration ---------------------------------
 HOPS = ["eval", "d1", "d2", "d0", "setP", "poke", "setT"]
 
@@ -376,6 +431,6 @@ class _Mu:
         return explore_multirotor(case)
 
 
-SUBCHECKS = {"curve": _Cu(), "solve": _So(), "multirotor": _Mu(), "history": _Hi()}
+SUBCHECKS = {"curve": _Cu(), "solve": _So(), "multirotor": _Mu(), "history": _Hi(), "highdeg": _Hd()}
 REPLAY = {"curve": lambda c: explore_curve(c).fails, "solve": lambda c: explore_solve(c).fails, "multirotor": lambda c: explore_multirotor(c).fails,
-          "history": lambda c: explore_history(c).fails}
+          "history": lambda c: explore_history(c).fails, "highdeg": lambda c: explore_highdeg(c).fails}
